@@ -464,6 +464,15 @@ def corpus():
     out.append(bib_line(A1_KEY, 0, 1, ("IPN", 2, 2, 1), ((1, 7), None, (3, 0)), 2, 0, dict(p=A1_PRIMARY, cs=[A1_PAYLOAD]), [1], [1]))
     for f in range(8):
         out.append(ippt_line(f, A1_PRIMARY, (11, 2, 0), A1_PAYLOAD))
+    # many DISTINCT primary blocks through one thread (more than any small per-thread table of encoded primaries holds), then earlier ones
+    # again: every plaintext is the one of ITS primary block
+    prims = [dict(A1_PRIMARY, seq=i, life=1000 + i) for i in range(140)]
+    for flags in (1, 7):
+        seq_ = [ippt_line(flags, p, (11, 2, 0), A1_PAYLOAD) for p in prims[:70]]
+        seq_ += [ippt_line(flags, prims[i], (11, 2, 0), A1_PAYLOAD) for i in (69, 40, 33, 32, 31, 0, 1, 64, 65, 38, 39)]
+        out.append("PAIR " + " || ".join(seq_))
+    seq_ = [ippt_line(1, p, None, A1_PAYLOAD) for p in prims] + [ippt_line(1, prims[i], None, A1_PAYLOAD) for i in range(139, -1, -7)]
+    out.append("PAIR " + " || ".join(seq_))
     # D13 witnesses: unknown-typed target (double wrapping on the pinned tree), non-payload target (result id = block number)
     out.append(ippt_line(0, None, None, dict(type=192, num=3, flags=0, crc=("N",), data=("UNK", b"\x01\x02\x03"))))
     out.append(ippt_line(7, A1_PRIMARY, (11, 2, 0), dict(type=11, num=9, flags=0, crc=("N",), data=("UNK", b""))))
